@@ -155,6 +155,10 @@ def gen_column(r, name, n, kinds=None):
         col['dtype'] = {'str': 'object', 'category': 'category',
                         'string_ext': 'string', 'str_pd3': 'str'}[kind]
         col['values'] = vals
+        if kind == 'str' and r.chance(0.2):
+            # nulls held as NaN float objects that are not the np.nan
+            # singleton (what unpickling or float('nan') gives)
+            col['null_repr'] = 'nan_obj'
         if kind == 'category' and r.chance(0.4):
             # categories that no row uses (declared up front, or left
             # behind after rows were filtered out)
@@ -217,6 +221,8 @@ def build_frame(spec):
         elif dt == 'boolean':
             s = pd.Series(pd.array(vals, dtype='boolean'))
         elif dt == 'object':
+            if c.get('null_repr') == 'nan_obj':
+                vals = [float('nan') if v is None else v for v in vals]
             s = pd.Series(vals, dtype=object)
         elif dt == 'category':
             s = pd.Series(vals, dtype=object).astype('category')
